@@ -263,7 +263,8 @@ class FunctionType:
         if self.has_trailing_return:
             return f"auto ({params}{vararg}) -> {self.return_type.format()}"
         else:
-            return f"{self.return_type.format()} ({params}{vararg})"
+            # the return type may itself have a declarator that wraps this one
+            return self.return_type.format_decl(f"({params}{vararg})")
 
     def format_decl(self, name: str) -> str:
         """Format as a named declaration"""
@@ -272,7 +273,8 @@ class FunctionType:
         if self.has_trailing_return:
             return f"auto {name}({params}{vararg}) -> {self.return_type.format()}"
         else:
-            return f"{self.return_type.format()} {name}({params}{vararg})"
+            # the return type may itself have a declarator that wraps this one
+            return self.return_type.format_decl(f"{name}({params}{vararg})")
 
 
 @dataclass
@@ -332,6 +334,16 @@ class Array:
         return self.array_of.format_decl(f"{name}[{s}]")
 
 
+def _wraps_declarator(t: typing.Union[Array, FunctionType, "Pointer", Type]) -> bool:
+    """
+    True if part of the formatted type follows the declared name: a pointer
+    (to a pointer ...) to an array or function
+    """
+    while isinstance(t, Pointer):
+        t = t.ptr_to
+    return isinstance(t, (Array, FunctionType))
+
+
 @dataclass
 class Pointer:
     """
@@ -350,6 +362,8 @@ class Pointer:
         ptr_to = self.ptr_to
         if isinstance(ptr_to, (Array, FunctionType)):
             return ptr_to.format_decl(f"(*{c}{v})")
+        elif _wraps_declarator(ptr_to):
+            return ptr_to.format_decl(f"*{c}{v}")
         else:
             return f"{ptr_to.format()}*{c}{v}"
 
@@ -360,6 +374,8 @@ class Pointer:
         ptr_to = self.ptr_to
         if isinstance(ptr_to, (Array, FunctionType)):
             return ptr_to.format_decl(f"(*{c}{v} {name})")
+        elif _wraps_declarator(ptr_to):
+            return ptr_to.format_decl(f"*{c}{v} {name}")
         else:
             return f"{ptr_to.format()}*{c}{v} {name}"
 
@@ -376,6 +392,8 @@ class Reference:
         ref_to = self.ref_to
         if isinstance(ref_to, (Array, FunctionType)):
             return ref_to.format_decl("(&)")
+        elif _wraps_declarator(ref_to):
+            return ref_to.format_decl("&")
         else:
             return f"{ref_to.format()}&"
 
@@ -385,6 +403,8 @@ class Reference:
 
         if isinstance(ref_to, (Array, FunctionType)):
             return ref_to.format_decl(f"(& {name})")
+        elif _wraps_declarator(ref_to):
+            return ref_to.format_decl(f"& {name}")
         else:
             return f"{ref_to.format()}& {name}"
 
@@ -398,11 +418,19 @@ class MoveReference:
     moveref_to: typing.Union[Array, FunctionType, Pointer, Type]
 
     def format(self) -> str:
-        return f"{self.moveref_to.format()}&&"
+        moveref_to = self.moveref_to
+        if _wraps_declarator(moveref_to):
+            return moveref_to.format_decl("&&")
+        else:
+            return f"{moveref_to.format()}&&"
 
     def format_decl(self, name: str):
         """Format as a named declaration"""
-        return f"{self.moveref_to.format()}&& {name}"
+        moveref_to = self.moveref_to
+        if _wraps_declarator(moveref_to):
+            return moveref_to.format_decl(f"&& {name}")
+        else:
+            return f"{moveref_to.format()}&& {name}"
 
 
 #: A type or function type that is decorated with various things
